@@ -674,6 +674,8 @@ class Fxp():
         elif isinstance(val, Fxp):
             # if val is an Fxp object
             vdtype = val.vdtype
+            if vdtype is not None and vdtype != complex and np.issubdtype(vdtype, np.unsignedinteger):
+                vdtype = int    # (the raw codes of the source can be negative: they must not be cast to an unsigned type)
             # if some of signed, n_word, n_frac is not defined, they are copied from val
             if self.signed is None: self.signed = val.signed
             if self.n_word is None: self.n_word = val.n_word
